@@ -2,13 +2,17 @@
 // output format renders the diagnostics faithfully, one per line).
 //
 // Part A  workflows that echo hostile strings (line breaks, control, non-ASCII,
-//         quotes, " [") at many echo sites, linted through the library API and
-//         through actionlint.Command.Main in the modes default, -oneline,
-//         -oneline -color, -format '{{json .}}', -format with fields; stdout is
-//         parsed back (shipped problem-matcher pattern with Go regexp, JSON
-//         decoder) and compared with the library's []*Error.
+//
+//	quotes, " [") at many echo sites, linted through the library API and
+//	through actionlint.Command.Main in the modes default, -oneline,
+//	-oneline -color, -format '{{json .}}', -format with fields; stdout is
+//	parsed back (shipped problem-matcher pattern with Go regexp, JSON
+//	decoder) and compared with the library's []*Error.
+//
 // Part B  the snippet renderer (PrettyPrint, GetTemplateFields) on all
-//         (line, col) in [-1, len+2]^2 for a pool of sources, with recover.
+//
+//	(line, col) in [-1, len+2]^2 for a pool of sources, with recover.
+//
 // Part C  the shipped pattern on real and synthetic header lines.
 // Model inputs go to cases_render.txt / cases_sweep.txt / cases_matcher.txt.
 package main
@@ -45,6 +49,8 @@ var hostiles = []hostile{
 	{"crlf", "x\r\ny"},
 	{"lf-end", "tail\n"},
 	{"two-lf", "p\n\nq"},
+	{"quote-lf", "say \"hi\"\nthere"},
+	{"uescape", `\u003cb\u003e \u0026 <&>`}, // the six characters of a JSON escape, as text
 	{"tab", "t\tu"},
 	{"esc", "e\x1b[31mred"},
 	{"ctl", "c\x01d"},
@@ -107,6 +113,8 @@ type site struct {
 const hdr = "on: push\njobs:\n  test:\n    runs-on: ubuntu-latest\n    steps:\n"
 
 var sites = []site{
+	// no diagnostic at all: every mode renders the EMPTY list ("[]" for {{json .}})
+	{Name: "clean-workflow-name", Tmpl: "name: @Q@\non: push\njobs:\n  test:\n    runs-on: ubuntu-latest\n    steps:\n      - run: echo\n"},
 	{Name: "job-id", Tmpl: "on: push\njobs:\n  @Q@:\n    runs-on: ubuntu-latest\n    steps:\n      - run: echo\n"},
 	{Name: "step-id", Tmpl: hdr + "      - id: @Q@\n        run: echo\n      - run: echo ${{ steps.nope.outputs.x }}\n"},
 	{Name: "step-id-dup", Tmpl: hdr + "      - id: @Q@\n        run: echo\n      - id: @Q@\n        run: echo\n"},
@@ -245,6 +253,14 @@ func runMain(args ...string) (string, int) {
 	return out.String(), st
 }
 
+// runMainStdin: the workflow arrives on stdin under the name of the file
+func runMainStdin(src string, args ...string) (string, int) {
+	var out, errb bytes.Buffer
+	cmd := actionlint.Command{Stdin: strings.NewReader(src), Stdout: &out, Stderr: &errb}
+	st := cmd.Main(append(append([]string{"actionlint", "-shellcheck=", "-pyflakes=", "-stdin-filename", relWf}, args...), "-"))
+	return out.String(), st
+}
+
 // ---- oracle helpers --------------------------------------------------------------
 
 type jerr struct {
@@ -258,17 +274,17 @@ type jerr struct {
 }
 
 type failure struct {
-	What     string `json:"what"`
-	Key      string `json:"key"`
-	Site     string `json:"site,omitempty"`
-	Hostile  string `json:"hostile,omitempty"`
-	Workflow string `json:"workflow,omitempty"`
+	What     string            `json:"what"`
+	Key      string            `json:"key"`
+	Site     string            `json:"site,omitempty"`
+	Hostile  string            `json:"hostile,omitempty"`
+	Workflow string            `json:"workflow,omitempty"`
 	Extra    map[string]string `json:"extra_files,omitempty"`
-	Mode     string `json:"mode,omitempty"`
-	Detail   string `json:"detail,omitempty"`
-	Source   string `json:"source,omitempty"`
-	Line     int    `json:"line,omitempty"`
-	Col      int    `json:"col,omitempty"`
+	Mode     string            `json:"mode,omitempty"`
+	Detail   string            `json:"detail,omitempty"`
+	Source   string            `json:"source,omitempty"`
+	Line     int               `json:"line,omitempty"`
+	Col      int               `json:"col,omitempty"`
 }
 
 func msgClass(m string) string {
@@ -512,6 +528,16 @@ func (a *partA) eval(st *site, h hostile, emit bool) {
 				d.Snippet != strings.ToValidUTF8(tf.Snippet, "\uFFFD") || d.EndColumn != tf.EndColumn {
 				a.fail(mk("JSON output does not round-trip the fields of the diagnostic", "c16:json-roundtrip:site="+st.Name, "json", fmt.Sprintf("%+v vs %+v", d, *e)))
 			}
+		}
+	}
+
+	// the same content read from stdin under the same name: same rendering in every mode
+	for _, m := range [][]string{{"-format", "{{json .}}"}, {"-oneline", "-no-color"}, {"-no-color"}} {
+		fo, fs := runMain(append(append([]string{}, m...), relWf)...)
+		so, ss := runMainStdin(src, m...)
+		if fo != so || fs != ss {
+			a.fail(mk("the workflow read from stdin under the name of the file is rendered differently from the file ("+strings.Join(m, " ")+")", "c16:stdin-route:"+m[0]+":site="+st.Name, "stdin", fmt.Sprintf("file route (exit %d): %q\nstdin route (exit %d): %q", fs, fo, ss, so)))
+			break
 		}
 	}
 
@@ -878,7 +904,7 @@ func main() {
 		st := &sites[si]
 		for hi, h := range hostiles {
 			// quick: every site with the line-break strings and a rotating sample of the others
-			if *tier != "thorough" && hi >= 4 && (hi+si)%4 != 0 {
+			if *tier != "thorough" && hi >= 6 && (hi+si)%4 != 0 {
 				continue
 			}
 			a.eval(st, h, *tier == "thorough" || (hi+si)%3 == 0)
